@@ -4,6 +4,8 @@ package c14
 
 import (
 	"context"
+	"encoding/json"
+	"strconv"
 
 	"errors"
 	"fmt"
@@ -40,8 +42,42 @@ import (
 
 // ---------- protocol types (shared with lean/Karp/Driver/C14.lean) ----------
 
-// Taint is [key, effect] (values are never compared by the code under test: Taint.MatchTaint).
-type Taint [2]string
+// Taint is [key, effect, value, timeAdded]: key and effect identify a taint (Taint.MatchTaint, and the API server
+// refuses two taints with the same key and effect on one Node); value and timeAdded (seconds since the start of the
+// history, "" = nil) are payload that taints written by kubelet (--register-with-taints=k=v:e), the cloud controller
+// manager and the node lifecycle controller carry. JSON: trailing empty fields are dropped, [key, effect] is valid.
+type Taint [4]string
+
+func (t Taint) MarshalJSON() ([]byte, error) {
+	n := 4
+	for n > 2 && t[n-1] == "" {
+		n--
+	}
+	return json.Marshal(t[:n])
+}
+
+func (t Taint) same(u Taint) bool { return t[0] == u[0] && t[1] == u[1] }
+
+func (t Taint) core() corev1.Taint {
+	out := corev1.Taint{Key: t[0], Effect: corev1.TaintEffect(t[1]), Value: t[2]}
+	if t[3] != "" {
+		secs, err := strconv.Atoi(t[3])
+		if err != nil {
+			panic(fmt.Sprintf("bad timeAdded %q", t[3]))
+		}
+		ts := metav1.NewTime(t0.Add(time.Duration(secs) * time.Second))
+		out.TimeAdded = &ts
+	}
+	return out
+}
+
+func taintOf(t corev1.Taint) Taint {
+	out := Taint{t.Key, string(t.Effect), t.Value, ""}
+	if t.TimeAdded != nil {
+		out[3] = strconv.Itoa(int(t.TimeAdded.Time.Sub(t0) / time.Second))
+	}
+	return out
+}
 
 type ClaimIn struct {
 	Startup []Taint `json:"startup"` // spec.startupTaints
@@ -59,10 +95,14 @@ type Step struct {
 	F      map[string]string `json:"f,omitempty"`      // call site -> injected error class (conflict | notfound | err)
 	// node
 	Taints []Taint `json:"taints,omitempty"`
-	Ready  bool    `json:"ready,omitempty"`
+	Ready  bool    `json:"ready,omitempty"` // Ready condition True / False ...
+	Rs     string  `json:"rs,omitempty"`    // ... unless given here: T | F | U (Unknown) | N (no Ready condition posted yet)
 	Res    bool    `json:"res,omitempty"`
 	Dns    bool    `json:"dns,omitempty"` // karpenter.sh/do-not-sync-taints=true
 	Reg    bool    `json:"reg,omitempty"` // karpenter.sh/registered label already present
+	// stray: a Node that does not belong to this NodeClaim: Pid "" = no provider id (yet), anything else = the id of
+	// some other instance; taints / ready / res as for "node"
+	Pid string `json:"pid,omitempty"`
 	// addt / rmt
 	T *Taint `json:"t,omitempty"`
 	// adv
@@ -82,7 +122,7 @@ type ClaimObs struct {
 	L      string `json:"L,omitempty"`     // T | F | U
 	R      string `json:"R,omitempty"`
 	I      string `json:"I,omitempty"`
-	Lr     string `json:"Lr,omitempty"` // reason (+ ":key:effect" detail where the message names a taint)
+	Lr     string `json:"Lr,omitempty"` // reason (+ "|key|effect[|value]" detail where the message names a taint)
 	Rr     string `json:"Rr,omitempty"`
 	Ir     string `json:"Ir,omitempty"`
 	Lt     int    `json:"Lt,omitempty"` // lastTransitionTime, seconds since the start of the history
@@ -102,7 +142,7 @@ type NodeObs struct {
 	Reg    bool    `json:"reg,omitempty"`
 	Init   bool    `json:"init,omitempty"`
 	Dns    bool    `json:"dns,omitempty"`
-	Ready  bool    `json:"ready,omitempty"`
+	Ready  string  `json:"ready,omitempty"` // status of the Ready condition: T | F | U, absent: no such condition
 	Res    bool    `json:"res,omitempty"`
 }
 
@@ -120,6 +160,7 @@ type StepObs struct {
 	View    ClaimObs    `json:"view,omitempty"`    // what Reconcile was handed
 	Claim   ClaimObs    `json:"claim,omitempty"`   // API server state after the step
 	Nodes   []NodeObs   `json:"nodes,omitempty"`   // nodes carrying the instance's provider id, by name
+	Strays  []NodeObs   `json:"strays,omitempty"`  // every other Node of the cluster, by name
 	Creates []CreateObs `json:"creates,omitempty"` // provider Create calls made in this step
 	Inst    int         `json:"instances,omitempty"`
 	Now     int         `json:"now,omitempty"`
@@ -177,6 +218,7 @@ type world struct {
 	creates []CreateObs
 
 	nodeSeq  int
+	straySeq int
 	versions []*v1.NodeClaim // API server copy after every step (nil = gone); versions[0] = initial
 	lastView int
 }
@@ -295,12 +337,8 @@ func newWorld(in ClaimIn) *world {
 			Requirements: []v1.NodeSelectorRequirementWithMinValues{},
 		},
 	}
-	for _, t := range in.Startup {
-		nc.Spec.StartupTaints = append(nc.Spec.StartupTaints, corev1.Taint{Key: t[0], Effect: corev1.TaintEffect(t[1])})
-	}
-	for _, t := range in.Taints {
-		nc.Spec.Taints = append(nc.Spec.Taints, corev1.Taint{Key: t[0], Effect: corev1.TaintEffect(t[1])})
-	}
+	nc.Spec.StartupTaints = toTaints(in.Startup)
+	nc.Spec.Taints = toTaints(in.Taints)
 	switch in.Res {
 	case 1:
 		nc.Spec.Resources.Requests = corev1.ResourceList{resName: resource.MustParse("1")}
@@ -384,14 +422,22 @@ func (w *world) serverClaim() *v1.NodeClaim {
 	return cur
 }
 
-func (w *world) nodes() []*corev1.Node {
+// nodes: the Nodes that carry the provider id of an instance created for the NodeClaim (stray = false), or all the
+// others (stray = true), oldest first
+func (w *world) nodes(stray bool) []*corev1.Node {
 	l := &corev1.NodeList{}
 	if err := w.base.List(w.ctx, l); err != nil {
 		panic(err)
 	}
 	out := []*corev1.Node{}
 	for i := range l.Items {
-		out = append(out, &l.Items[i])
+		own := false
+		for _, id := range w.insts {
+			own = own || l.Items[i].Spec.ProviderID == id
+		}
+		if own != stray {
+			out = append(out, &l.Items[i])
+		}
 	}
 	sort.Slice(out, func(i, j int) bool {
 		return out[i].CreationTimestamp.Before(&out[j].CreationTimestamp) || (out[i].CreationTimestamp.Equal(&out[j].CreationTimestamp) && out[i].Name < out[j].Name)
@@ -402,13 +448,34 @@ func (w *world) nodes() []*corev1.Node {
 func toTaints(ts []Taint) []corev1.Taint {
 	var out []corev1.Taint
 	for _, t := range ts {
-		out = append(out, corev1.Taint{Key: t[0], Effect: corev1.TaintEffect(t[1])})
+		out = append(out, t.core())
 	}
 	return out
 }
 
+// readyConditions: the Node's status.conditions for a Ready status T | F | U | N (N: the kubelet has not posted Ready
+// yet). Other conditions are always there, one of them True, so that the Ready condition has to be looked up by type.
+func readyConditions(rs string) []corev1.NodeCondition {
+	conds := []corev1.NodeCondition{
+		{Type: corev1.NodeMemoryPressure, Status: corev1.ConditionFalse, Reason: "KubeletHasSufficientMemory"},
+		{Type: "example.com/AgentHealthy", Status: corev1.ConditionTrue, Reason: "AgentRunning"},
+	}
+	switch rs {
+	case "T":
+		conds = append(conds, corev1.NodeCondition{Type: corev1.NodeReady, Status: corev1.ConditionTrue, Reason: "KubeletReady"})
+	case "F":
+		conds = append(conds, corev1.NodeCondition{Type: corev1.NodeReady, Status: corev1.ConditionFalse, Reason: "KubeletNotReady"})
+	case "U":
+		conds = append(conds, corev1.NodeCondition{Type: corev1.NodeReady, Status: corev1.ConditionUnknown, Reason: "NodeStatusUnknown"})
+	case "N":
+	default:
+		panic(fmt.Sprintf("bad Ready status %q", rs))
+	}
+	return conds
+}
+
 func (w *world) updateNode(f func(n *corev1.Node)) {
-	ns := w.nodes()
+	ns := w.nodes(false)
 	if len(ns) == 0 {
 		return
 	}
@@ -438,10 +505,8 @@ func (w *world) env(s Step) error {
 				CreationTimestamp: metav1.NewTime(t0.Add(time.Duration(w.nodeSeq) * time.Second)),
 				Labels:            map[string]string{corev1.LabelHostname: fmt.Sprintf("node-%02d", w.nodeSeq)},
 			},
-			Spec: corev1.NodeSpec{ProviderID: w.insts[0], Taints: toTaints(s.Taints)},
-			Status: corev1.NodeStatus{
-				Conditions: []corev1.NodeCondition{{Type: corev1.NodeReady, Status: lo3(s.Ready)}},
-			},
+			Spec:   corev1.NodeSpec{ProviderID: w.insts[0], Taints: toTaints(s.Taints)},
+			Status: corev1.NodeStatus{Conditions: readyConditions(s.readyStatus())},
 		}
 		if s.Res {
 			n.Status.Allocatable = corev1.ResourceList{resName: resource.MustParse("1")}
@@ -456,8 +521,31 @@ func (w *world) env(s Step) error {
 			n.Labels[v1.NodeRegisteredLabelKey] = "true"
 		}
 		return w.base.Create(w.ctx, n)
+	case "stray":
+		w.straySeq++
+		pid := s.Pid
+		if pid != "" {
+			pid = fmt.Sprintf("fake:///stray-%02d-%s", w.straySeq, s.Pid)
+		}
+		n := &corev1.Node{
+			ObjectMeta: metav1.ObjectMeta{
+				Name:              fmt.Sprintf("stray-%02d", w.straySeq),
+				UID:               types.UID(fmt.Sprintf("uid-stray-%02d", w.straySeq)),
+				CreationTimestamp: metav1.NewTime(t0.Add(-time.Duration(100-w.straySeq) * time.Second)),
+				Labels:            map[string]string{corev1.LabelHostname: fmt.Sprintf("stray-%02d", w.straySeq)},
+			},
+			Spec:   corev1.NodeSpec{ProviderID: pid, Taints: toTaints(s.Taints)},
+			Status: corev1.NodeStatus{Conditions: readyConditions(s.readyStatus())},
+		}
+		if s.Res {
+			n.Status.Allocatable = corev1.ResourceList{resName: resource.MustParse("1")}
+		} else {
+			n.Status.Allocatable = corev1.ResourceList{resName: resource.MustParse("0")}
+		}
+		n.Status.Capacity = n.Status.Allocatable
+		return w.base.Create(w.ctx, n)
 	case "gone":
-		for _, n := range w.nodes() {
+		for _, n := range w.nodes(false) {
 			n.Finalizers = nil
 			if err := w.base.Update(w.ctx, n); err != nil {
 				return err
@@ -467,13 +555,13 @@ func (w *world) env(s Step) error {
 			}
 		}
 	case "ready":
-		w.updateNode(func(n *corev1.Node) {
-			n.Status.Conditions = []corev1.NodeCondition{{Type: corev1.NodeReady, Status: corev1.ConditionTrue}}
-		})
+		w.updateNode(func(n *corev1.Node) { n.Status.Conditions = readyConditions("T") })
 	case "unready":
-		w.updateNode(func(n *corev1.Node) {
-			n.Status.Conditions = []corev1.NodeCondition{{Type: corev1.NodeReady, Status: corev1.ConditionFalse}}
-		})
+		w.updateNode(func(n *corev1.Node) { n.Status.Conditions = readyConditions("F") })
+	case "unkready": // the node lifecycle controller: the kubelet stopped posting status
+		w.updateNode(func(n *corev1.Node) { n.Status.Conditions = readyConditions("U") })
+	case "noready": // no Ready condition at all
+		w.updateNode(func(n *corev1.Node) { n.Status.Conditions = readyConditions("N") })
 	case "res":
 		w.updateNode(func(n *corev1.Node) {
 			n.Status.Allocatable = corev1.ResourceList{resName: resource.MustParse("1")}
@@ -484,10 +572,10 @@ func (w *world) env(s Step) error {
 		w.updateNode(func(n *corev1.Node) {
 			for _, t := range n.Spec.Taints {
 				if t.Key == s.T[0] && string(t.Effect) == s.T[1] {
-					return
+					return // the API server refuses a second taint with the same key and effect
 				}
 			}
-			n.Spec.Taints = append(n.Spec.Taints, corev1.Taint{Key: s.T[0], Effect: corev1.TaintEffect(s.T[1])})
+			n.Spec.Taints = append(n.Spec.Taints, s.T.core())
 		})
 	case "rmt":
 		w.updateNode(func(n *corev1.Node) {
@@ -511,11 +599,14 @@ func (w *world) env(s Step) error {
 	return nil
 }
 
-func lo3(b bool) corev1.ConditionStatus {
-	if b {
-		return corev1.ConditionTrue
+func (s Step) readyStatus() string {
+	switch {
+	case s.Rs != "":
+		return s.Rs
+	case s.Ready:
+		return "T"
 	}
-	return corev1.ConditionFalse
+	return "F"
 }
 
 var quoted = regexp.MustCompile(`"([^"]*)"`)
@@ -539,11 +630,14 @@ func condObs(nc *v1.NodeClaim, typ string) (st, reason string, ltt int) {
 			if m := quoted.FindStringSubmatch(c.Message); m != nil {
 				kv := m[1]
 				i := strings.LastIndex(kv, ":")
-				key, eff := kv[:i], kv[i+1:]
+				key, eff, val := kv[:i], kv[i+1:], ""
 				if j := strings.Index(key, "="); j >= 0 {
-					key = key[:j]
+					key, val = key[:j], key[j+1:]
 				}
 				reason += "|" + key + "|" + eff
+				if val != "" {
+					reason += "|" + val
+				}
 			}
 		}
 		ltt = int(c.LastTransitionTime.Time.Sub(t0) / time.Second)
@@ -565,12 +659,12 @@ func (w *world) claimObs(nc *v1.NodeClaim) ClaimObs {
 	return o
 }
 
-func (w *world) nodeObs() []NodeObs {
+func (w *world) nodeObs(stray bool) []NodeObs {
 	out := []NodeObs{}
-	for _, n := range w.nodes() {
+	for _, n := range w.nodes(stray) {
 		o := NodeObs{Taints: []Taint{}, Fin: hasFinalizer(n.Finalizers)}
 		for _, t := range n.Spec.Taints {
-			o.Taints = append(o.Taints, Taint{t.Key, string(t.Effect)})
+			o.Taints = append(o.Taints, taintOf(t))
 		}
 		for _, r := range n.OwnerReferences {
 			if r.Kind == "NodeClaim" && r.UID == claimUID {
@@ -583,8 +677,15 @@ func (w *world) nodeObs() []NodeObs {
 		_, o.Init = n.Labels[v1.NodeInitializedLabelKey]
 		o.Dns = n.Labels[v1.NodeDoNotSyncTaintsLabelKey] == "true"
 		for _, c := range n.Status.Conditions {
-			if c.Type == corev1.NodeReady && c.Status == corev1.ConditionTrue {
-				o.Ready = true
+			if c.Type == corev1.NodeReady && o.Ready == "" {
+				switch c.Status {
+				case corev1.ConditionTrue:
+					o.Ready = "T"
+				case corev1.ConditionFalse:
+					o.Ready = "F"
+				default:
+					o.Ready = "U"
+				}
 			}
 		}
 		q := n.Status.Allocatable[resName]
@@ -639,7 +740,8 @@ func run(in In) (Out, error) {
 		sc := w.serverClaim()
 		w.versions = append(w.versions, sc)
 		so.Claim = w.claimObs(sc)
-		so.Nodes = w.nodeObs()
+		so.Nodes = w.nodeObs(false)
+		so.Strays = w.nodeObs(true)
 		so.Inst = len(w.insts)
 		so.Now = int(w.clk.Now().Sub(t0) / time.Second)
 		out.Steps = append(out.Steps, so)
